@@ -889,7 +889,7 @@ def translate(fname, extra_owned=(), repo=None, failed=()):
             "notes": c.notes, "nstmts": term.count("SAssign") + term.count("SStore")}
 
 
-def generate(repo=None, failed=()):
+def generate(repo=None, failed=(), modname="C04_ir"):
     """Translate every function in FUNCS plus every contract variant needed
     by a call site.  Returns list of dicts (with 'error' when unsupported)
     and writes coq/Gen/C04_ir.v."""
@@ -925,7 +925,7 @@ def generate(repo=None, failed=()):
         lines.append("")
     gen = os.path.join(vlib.COQ, "Gen")
     os.makedirs(gen, exist_ok=True)
-    with open(os.path.join(gen, "C04_ir.v"), "w") as f:
+    with open(os.path.join(gen, modname + ".v"), "w") as f:
         f.write("\n".join(lines))
     return items
 
